@@ -32,6 +32,9 @@ for p in props:
                   "(DESIGN 12.8); the call is repeated once more in a process left in an "
                   "unusual state - errno set, FP flags raised, fd 1 unwritable, terse print "
                   "options - and must answer the same (DESIGN 12.9).")
+    if "ctx.concurrent(" in src:
+        extra += (" The call is also made from four threads at once, each on its own data, "
+                  "and every answer compared with the one obtained alone (DESIGN 12.10).")
     checks.append({
         "property_id": pid,
         "quick_cmd": f"./check {pid} --tier quick",
